@@ -149,7 +149,21 @@ def input_singles(md):
     for v in md["vars"]:
         out.append(("x", v, 1, 0.06))
     out += list(md.get("extra_singles", ()))
+    # missing values in cells that are NOT unknowns of the simulation: the measurement variable unobserved in a period
+    # (must come back as it went in), a hole in an exogenous path (the run must not report success with an invented value)
+    out.append(("o", "obs", 2, float("nan")))
+    for z in md["exog"]:
+        out.append(("zn", z, 2, float("nan")))
     return out
+
+
+def forced_patterns(md):
+    """input patterns that are always run: two different transition shocks hit in the same later period with values
+    that cancel exactly (+a and -a)"""
+    if len(md["shocks"]) < 2:
+        return []
+    s0, s1 = md["shocks"][:2]
+    return [(("u", s0, 3, 0.1), ("u", s1, 3, -0.1)), (("u", s0, 2, 0.05), ("u", s1, 2, -0.05), ("a", s0, 3, 0.04))]
 
 
 def residuals(md, get, t):
@@ -191,6 +205,10 @@ def run_case(md, m, inputs, n_per, method, terminal, guess, res, fo_cache=None):
         elif kind == "x":
             p = START - d
             db[n_][p] = db[n_].get_data(p)[0, 0] * (1 + a)
+        elif kind in ("o", "zn"):
+            if d > n_per:
+                return None
+            db[n_][START + d - 1] = float("nan")
     res.ev()
     kw = dict(method=method, return_info=True, remove_terminal=False)
     if method == "stacked_time":
@@ -210,6 +228,10 @@ def run_case(md, m, inputs, n_per, method, terminal, guess, res, fo_cache=None):
             if "failed to complete" in msg or "Cannot make" in msg or "converge" in msg.lower():
                 res.count("reported_failure_default_settings" if attempt == 0 else "reported_failure")
                 continue
+            if any(i_[0] == "zn" for i_ in inputs):
+                # a hole in an exogenous path: any refusal to run is "does not report success"
+                res.count("missing_exogenous_input_refused")
+                return None
             bad("exception", "%s: %s" % (type(e).__name__, msg[:300]), error=type(e).__name__)
             return None
     if out is None:
@@ -477,7 +499,7 @@ def shard(item, res, ctx):
     S = input_singles(md)
     if item["part"] == "singles":
         check_variants(md, m, res)
-        patterns = [()] + [(s,) for s in S]
+        patterns = [()] + [(s,) for s in S] + forced_patterns(md)
     elif item["part"] == "triples":
         patterns = triples(md)[item["lo"]: item["hi"]]
     else:
